@@ -84,11 +84,11 @@ class MultiRef:
             log = logging.getLogger(__name__)
             log.error('soap multiref: %s, not-resolved', id)
             return
-        node.append(ref.children)
+        node.append([c.clone(node) for c in ref.children])
         node.setText(ref.getText())
         for a in ref.attributes:
             if a.name != 'id':
-                node.append(a)
+                node.append(a.clone(node))
         # Namespace declarations the referenced node kept for itself still
         # apply to the content moved here.
         for prefix, uri in ref.nsprefixes.items():
